@@ -12,7 +12,7 @@ func runC04() *RunResult {
 	w := &World{prop: "C04", checkDocsAfterOp: true, selfReentry: true}
 	nt := 1
 	if chance(40) {
-		nt = 2 + rn(7)
+		nt = 2 + rn(widen(7))
 	}
 	dg := docGen{useNumber: chance(30)}
 	trap := chance(25)
